@@ -10,6 +10,8 @@
 //                                                      (ENOSPC | EPIPE | EAGAIN | EIO)
 //  write(fd=2)        -> errshort=<per1000>,erreintr=<per1000> in the same plan: recoverable
 //                        faults on standard error (the trap report)
+//                        errfatal=<errno-name>@<byte offset>: from that many delivered stderr
+//                        bytes on every write to standard error fails
 //     every fired fault is appended to the file named by VERIF_IO_LOG as one line.
 // Built with: gcc -shared -fPIC -O2 -o verifenv.so verifenv.c -ldl
 #define _GNU_SOURCE
@@ -38,6 +40,9 @@ static int (*real_clock_gettime)(clockid_t, struct timespec *);
 static int io_init_done;
 static uint64_t io_state;
 static int io_short, io_eintr, io_errshort, io_erreintr;
+static int io_errfatal_errno;
+static long io_errfatal_at = -1;
+static long io_err_delivered;
 static int io_fatal_errno;
 static long io_fatal_at = -1;
 static long io_delivered;
@@ -64,6 +69,12 @@ static void io_init(void) {
     else if (!strncmp(tok, "eintr=", 6)) io_eintr = atoi(tok + 6);
     else if (!strncmp(tok, "errshort=", 9)) io_errshort = atoi(tok + 9);
     else if (!strncmp(tok, "erreintr=", 9)) io_erreintr = atoi(tok + 9);
+    else if (!strncmp(tok, "errfatal=", 9)) {
+      char *at = strchr(tok, '@');
+      if (at) { *at = 0; io_errfatal_at = atol(at + 1); }
+      const char *e = tok + 9;
+      io_errfatal_errno = !strcmp(e, "ENOSPC") ? ENOSPC : !strcmp(e, "EPIPE") ? EPIPE : !strcmp(e, "EAGAIN") ? EAGAIN : EIO;
+    }
     else if (!strncmp(tok, "fatal=", 6)) {
       char *at = strchr(tok, '@');
       if (at) { *at = 0; io_fatal_at = atol(at + 1); }
@@ -78,8 +89,25 @@ ssize_t write(int fd, const void *buf, size_t n) {
   if (!real_write) real_write = dlsym(RTLD_NEXT, "write");
   if (fd != 1 && fd != 2) return real_write(fd, buf, n);
   if (!io_init_done) io_init();
+  if (fd == 2 && io_errfatal_at >= 0) {
+    if (io_err_delivered >= io_errfatal_at) {
+      io_log("err-fatal", io_errfatal_errno, (long)n);
+      errno = io_errfatal_errno;
+      return -1;
+    }
+    if ((long)n > io_errfatal_at - io_err_delivered) {
+      size_t k = (size_t)(io_errfatal_at - io_err_delivered);
+      ssize_t r = real_write(fd, buf, k);
+      if (r > 0) io_err_delivered += r;
+      io_log("err-torn", (long)k, (long)n);
+      return r;
+    }
+    ssize_t r = real_write(fd, buf, n);
+    if (r > 0) io_err_delivered += r;
+    return r;
+  }
   if (fd == 2) {
-    // recoverable faults only on standard error
+    // recoverable faults on standard error
     if (io_erreintr > 0 && (int)(splitmix(&io_state) % 1000) < io_erreintr) {
       io_log("err-eintr", 0, (long)n);
       errno = EINTR;
